@@ -1159,8 +1159,25 @@ func (in *e8interp) exec(fr *e8frame, st ast.Stmt) *e8return {
 		}
 		// bounded abstraction of `for i := 0; i < len(x); i++` over an opaque slice (same as for range loops)
 		boundedSlice := ""
+		var extraConds []ast.Expr
 		if in.rangeMax > 0 && s.Cond != nil {
-			if be, ok := ast.Unparen(s.Cond).(*ast.BinaryExpr); ok && be.Op == token.LSS {
+			bcond := ast.Unparen(s.Cond)
+			// `flag && i < len(x)`: the comparison bounds the loop, the other conjuncts are tested each time round
+			var flat func(e ast.Expr) []ast.Expr
+			flat = func(e ast.Expr) []ast.Expr {
+				if be, ok := ast.Unparen(e).(*ast.BinaryExpr); ok && be.Op == token.LAND {
+					return append(flat(be.X), flat(be.Y)...)
+				}
+				return []ast.Expr{ast.Unparen(e)}
+			}
+			for _, cj := range flat(bcond) {
+				if be, ok := cj.(*ast.BinaryExpr); ok && be.Op == token.LSS && boundedSlice == "" {
+					bcond = be
+					continue
+				}
+				extraConds = append(extraConds, cj)
+			}
+			if be, ok := bcond.(*ast.BinaryExpr); ok && be.Op == token.LSS {
 				if rv := in.evalQuiet(fr, be.Y); rv != nil && rv.k == kScalar && rv.name != "" {
 					if _, isNum := numericAtom(rv.name); !isNum {
 						if lv := in.evalQuiet(fr, be.X); lv != nil && lv.k == kInt {
@@ -1190,6 +1207,15 @@ func (in *e8interp) exec(fr *e8frame, st ast.Stmt) *e8return {
 					enter = in.a.B(name)
 				}
 				if !enter {
+					break
+				}
+				stop := false
+				for _, ec := range extraConds {
+					if !in.boolOf(in.eval(fr, ec)) && in.collect == nil {
+						stop = true
+					}
+				}
+				if stop {
 					break
 				}
 				if r := in.loopBody(fr, s.Body); r != nil {
